@@ -34,7 +34,7 @@ Definition of_reports (p : profile) : term :=
 Definition obs_of (r : res profile) : term :=
   match r with
   | Err e => TL [TS "err"; TS e]
-  | Ok p => TL [TS "ok"; of_merged p; of_reports p; of_reports p]
+  | Ok p => let r := of_reports p in TL [TS "ok"; of_merged p; r; r]
   end.
 
 Definition run_with (keep : list Q -> list Z -> bool) (i : term) : term :=
@@ -97,12 +97,23 @@ Definition normalize_near_half (i : term) : bool :=
          run with the documented rule ("some value non-zero") gives a different observable
    901 = a -normalize product v*B/S sits on a rounding boundary while B/S is not a float64
    902 = float64 arithmetic is used on magnitudes beyond 2^50 (exact-rational model not comparable) *)
-Definition cls_C07 (i : term) : list Z :=
-  (if term_eqb (run_with keep_written i) (run_with keep_documented i) then [] else [4])
-  ++ (if normalize_near_half i then [901] else [])
-  ++ (if float_out_of_range i then [902] else []).
+Definition skip_cls (i : term) : list Z :=
+  (if normalize_near_half i then [901] else []) ++ (if float_out_of_range i then [902] else []).
 
-Definition skipped (i : term) : bool := existsb (fun c => 900 <=? c) (cls_C07 i).
+Definition fetch_with (keep : list Q -> list Z -> bool) (i : term) : res profile :=
+  let '(db, nm) := in_flags i in fetch keep uts db nm (in_srcs i) (in_bases i).
+
+Definition res_eqb (a b : res profile) : bool :=
+  match a, b with
+  | Ok p, Ok q => term_eqb (of_profile p) (of_profile q)
+  | Err e, Err f => String.eqb e f
+  | _, _ => false
+  end.
+
+Definition cls_C07 (i : term) : list Z :=
+  (if res_eqb (fetch_with keep_written i) (fetch_with keep_documented i) then [] else [4]) ++ skip_cls i.
+
+Definition skipped (i : term) : bool := match skip_cls i with [] => false | _ => true end.
 
 Definition eqv_C07 (i m o : term) : bool := if skipped i then true else term_eqb m o.
 
